@@ -348,6 +348,13 @@ class Report:
         cov["trusted_base"] = TRUSTED_BASE + self.assumptions
         cov["known_findings_reproduced"] = self.known_hits
         cov["correspondence_disagreements"] = len(self.corr_breaks)
+        try:
+            from lib import cover
+            mc = cover.report(self.prop_id, REPO)
+            if mc is not None:
+                cov["modelled_code"] = mc
+        except Exception as e:      # the measurement must never change a verdict
+            cov["modelled_code"] = {"error": repr(e)}
         ev = {
             "property_id": self.prop_id,
             "tier": self.tier,
